@@ -4,7 +4,17 @@ import impl, gen, treeval
 from metapype.model.node import Node
 from metapype.eml import evaluate
 from metapype.eml.evaluation_warnings import EvaluationWarning
-from metapype.model.normalize import normalize
+
+
+def normalize(s):
+    """independent reading of the documented text normalisation: NBSP -> space, pieces between spaces trimmed, empty pieces dropped"""
+    return " ".join(w.strip() for w in s.replace("\xa0", " ").split(" ") if w.strip() != "")
+
+
+def title_unspecified(s):
+    """whether tab / newline (or other non-space whitespace) separates words is not fixed by 'title under 5 words'"""
+    return any(ch.isspace() and ch not in " \xa0" for ch in s)
+
 
 TRUSTED = ["message texts are not compared, only (warning code, node)",
            "the declarative oracle in this file covers title, abstract, keywords, coverage/data table/rights/methods/project, parties, individual names, entity descriptions and listed-parent descriptions; data-table physical details are compared with the Lean model only"]
@@ -40,7 +50,7 @@ def expected(t, parent=None, path=()):
     def has(nm, pred=lambda k: True):
         return any(k[1] == nm and pred(k) for k in kids)
     txt = lambda k: bool(k[2])
-    if name == "title" and parent == "dataset" and t[2] is not None:
+    if name == "title" and parent == "dataset" and t[2] is not None and not title_unspecified(t[2]):
         if len(normalize(t[2]).split(" ")) < 5:
             out.append(("TITLE_TOO_SHORT", path))
     if name == "dataset":
@@ -113,7 +123,8 @@ def tweak(t, rng, tg):
     for _, x in gen.nodes_of(t):
         nm = x[1]
         if nm == "title" and rng.random() < 0.8:
-            x[2] = rng.choice([words(rng.choice([1, 4, 5, 6])), "  a  b\xa0c d  ", "a b c d\xa0e", "", " "])
+            x[2] = rng.choice([words(rng.choice([1, 4, 5, 6])), "  a  b\xa0c d  ", "a b c d\xa0e", "", " ",
+                               "a b c d\ne", "a b c\td e", "a b c d \n e", "a b c d e\n", "a\nb\nc\nd\ne f"])
         elif nm == "abstract" and rng.random() < 0.8:
             n = rng.choice([0, 19, 20, 21])
             k = rng.choice([1, 2, 3])
@@ -130,8 +141,10 @@ def tweak(t, rng, tg):
             x[8] = [k for k in x[8] if k[1] not in ("userId", "electronicMailAddress")]
             if rng.random() < 0.6:
                 x[8].append(impl.T("electronicMailAddress", rng.choice(["a@b.c", "", None])))
-            if rng.random() < 0.6:
-                x[8].append(impl.T("userId", rng.choice(["0000-0001", "", None]), [], [["directory", rng.choice(["https://orcid.org", "other"])]]))
+            for _ in range(rng.choice([0, 1, 1, 2, 3])):
+                x[8].append(impl.T("userId", rng.choice(["0000-0001", "0000-0001", "", None]), [], [["directory", rng.choice(["https://orcid.org", "other"])]]))
+            if rng.random() < 0.3:
+                x[8].append(impl.T("electronicMailAddress", rng.choice(["x@y.z", ""])))
         elif nm == "individualName" and rng.random() < 0.6:
             x[8] = [impl.T("givenName", rng.choice(["G", "", None]))] * rng.choice([0, 1]) + [impl.T("surName", rng.choice(["S", ""]))]
         elif nm == "description" and rng.random() < 0.6:
@@ -197,7 +210,8 @@ def run(ctx):
         for c, _ in got:
             codes[c] = codes.get(c, 0) + 1
         exp = sorted((c, list(p)) for c, p in expected(t))
-        sub = sorted((c, p) for c, p in got if c in ORACLE_CODES)
+        unspec = [list(pth) for pth, x in gen.nodes_of(t) if x[1] == "title" and x[2] is not None and title_unspecified(x[2])]
+        sub = sorted((c, p) for c, p in got if c in ORACLE_CODES and not (c == "TITLE_TOO_SHORT" and p in unspec))
         if exp != sub:
             missing = [x for x in exp if x not in sub][:3]
             extra = [x for x in sub if x not in exp][:3]
